@@ -45,7 +45,7 @@ fn prob_menu() -> Vec<f64> {
     vec![0.0, -0.0, down(1e-9), 1e-9, up(1e-9), 1e-6, 1e-3, 0.25, down(0.5), 0.5, up(0.5), 0.75, 0.999, 0.999999999, down(1.0), 1.0, up(1.0), f64::NAN, -1e-9, f64::MIN_POSITIVE]
 }
 fn trials_menu() -> Vec<u64> {
-    vec![0, 1, 2, 9, 10, 20, 21, 100, 1000, 1_000_000, i32::MAX as u64, i32::MAX as u64 + 1, 999_999_999, 1_000_000_000, 1_000_000_001]
+    vec![0, 1, 2, 9, 10, 20, 21, 100, 1000, 1_000_000, i32::MAX as u64, i32::MAX as u64 + 1, 999_999_999, 1_000_000_000, 1_000_000_001, u32::MAX as u64, 1 << 32, (1 << 32) + 1, (1 << 33) + 123_456_789, 0xFFFF_FFFF_0000_0000, 1 << 63, u64::MAX]
 }
 pub fn start_max() -> Vec<(f64, f64)> {
     vec![(0.0, 0.0), (5.0, 0.0), (0.0, 5.0), (5.0, 3.0), (f64::NAN, 0.0), (0.0, f64::NAN), (f64::INFINITY, 0.0), (0.0, f64::INFINITY), (f64::NEG_INFINITY, 7.0), (1e300, 1e300), (-5.0, 2.0), (0.0, f64::MIN_POSITIVE)]
@@ -498,7 +498,9 @@ pub fn worker(ctx: &WorkerCtx) -> WorkerOut {
         }
     }
     // Binomial: helper subprocesses with a watchdog (a non-drawing loop cannot be interrupted in-process)
-    let bin_sub: Vec<Dist> = if q { bin.iter().step_by(3).cloned().collect() } else { bin.clone() };
+    // quick: every third Binomial, and every one whose trial count is above the documented bound (none on a tree whose validation is right)
+    let over = |d: &Dist| matches!(d.dist, DistType::Binomial { trials, .. } if trials > 1_000_000_000);
+    let bin_sub: Vec<Dist> = if q { bin.iter().enumerate().filter(|(i, d)| i % 3 == 0 || over(d)).map(|(_, d)| *d).collect() } else { bin.clone() };
     let bscr: Vec<Vec<u64>> = scripts(if q { 1 } else { 2 });
     let mut jobs: Vec<(Dist, Vec<u64>)> = vec![];
     for d in &bin_sub {
